@@ -50,7 +50,7 @@ CHECKS = {
     },
     "C05": {
         "level": "fault_enumeration",
-        "parts": [{"gen": "C05", "quick": 88, "thorough": 880}, {"gen": "C05udp", "quick": 45, "thorough": 450}, {"gen": "C05udpin", "quick": 120, "thorough": 1200}],
+        "parts": [{"gen": "C05", "quick": 88, "thorough": 880}, {"gen": "C05udp", "quick": 45, "thorough": 450}, {"gen": "C05udpin", "quick": 120, "thorough": 1200}, {"gen": "C05ustream", "quick": 48, "thorough": 480}],
         "rule": "one plan = one encrypted (protocol, cipher, single/multi-user) cell x direction; the man-in-the-middle node mutates the real byte stream between the real client and server: "
                 "one bit flipped in every byte position 0..n-1 (exhaustive over positions, bit drawn), truncation+close at every third offset, seeded deletions, duplications, insertions and multi-byte edits, "
                 "and full reflection of a sender's stream (Shadowsocks 2022, VMess). Each mutation is one evaluation. Oracle: everything released to the far side is a prefix of what was written; "
